@@ -626,10 +626,14 @@ def open_body(params):
     return [4] + be(65001, 2) + be(180, 2) + [5, 6, 7, 8, len(params)] + list(params)
 
 
+import re as _re
+_DIGITS = _re.compile(r'[0-9]+')
+
+
 class Plan:
     """one decoder: build(F, L) -> (message type, body items); candidates: payload sizes probed; sessions it runs on"""
 
-    def __init__(self, name, build, top=40, sess=('asn4',), mtype=2, keep=None, cover=(), weight=10, base=(0, 1, 2, 3, 4),
+    def __init__(self, name, build, top=40, sess=('asn4',), mtype=2, keep=None, cover=(), weight=10, base=(0, 1, 2),
                  group=None, variants=None):
         self.name, self.build, self.top, self.mtype, self.keep, self.cover, self.weight, self.base = name, build, top, mtype, keep, cover, weight, base
         # variants: (tag, session) - the builder receives the tag when it takes three arguments
@@ -672,26 +676,33 @@ class Plan:
                             what += ':%d:%d:%s' % (len(d.announces), len(d.withdraws), sorted(int(c) for c in d.attributes))
                     out.append('ok:' + what)
                 except Notify as n:
-                    out.append('n%d/%d' % (n.code, n.subcode))
+                    # the wording of the refusal with its numbers struck out: a different sentence is a different check
+                    out.append('n%d/%d %s' % (n.code, n.subcode, _DIGITS.sub('#', str(n))[:90]))
                 except StepBudget:
                     out.append('wedged')
                 except Exception as e:
-                    out.append('x' + type(e).__name__)
+                    out.append('x%s %s' % (type(e).__name__, _DIGITS.sub('#', str(e))[:60]))
             cls[L] = tuple(out)
         reset_state()
-        edge = set()
-        for L in range(0, top + 1):
-            if (L > 0 and cls[L] != cls[L - 1]) or (L < top and cls[L] != cls[L + 1]):
-                edge.add(L)
         self.accepted = [L for L in range(0, top + 1) if any(o.startswith('ok') and '65535' not in o and '65534' not in o for o in cls[L])]
+        # runs of consecutive sizes with one outcome class; a run of one size is a length the decoder singles out
+        runs = []
+        for L in range(0, top + 1):
+            if runs and cls[L] == cls[runs[-1][0]]:
+                runs[-1].append(L)
+            else:
+                runs.append([L])
         keep = (self.keep or 8) * (3 if th else 1)
-        want = sorted(set(x for x in self.base if x <= top) | edge)
-        if len(want) > keep:
-            # keep the base sizes and spread the rest over the boundaries found
-            rest = [x for x in want if x not in self.base]
-            step = max(1, -(-len(rest) // max(1, keep - len(self.base))))
-            want = sorted(set(x for x in self.base if x <= top) | set(rest[::step]) | {rest[-1]})
-        return want
+        base = [x for x in self.base if x <= top]
+        single = [r[0] for r in runs if len(r) == 1]
+        first = [r[0] for r in runs if len(r) > 1]
+        last = [r[-1] for r in runs if len(r) > 2]
+        want = []
+        for group in (single, base, first, last):
+            for x in group:
+                if x not in want and len(want) < keep:
+                    want.append(x)
+        return sorted(want)
 
 
 def h_group(ctx, plans, tier):
@@ -825,7 +836,8 @@ def nlri_plans(th=False):
         """through MP_REACH (announce) and MP_UNREACH (withdraw); with ADD-PATH the path identifier precedes the NLRI
         (inner: a sub-TLV of the NLRI, the wrappers were varied by the plan of the NLRI itself: MP_REACH only)"""
         def build(F, L, tag):
-            n = (F.sym('pid', 4) if tag.startswith('addpath') else []) + nlri(F, L)
+            # the path identifier is four opaque octets: concrete (a decoder which ignores ADD-PATH reads them as its own header)
+            n = ([0, 0, 0, 1] if tag.startswith('addpath') else []) + nlri(F, L)
             return upd_reach(afi, safi, n) if tag.endswith('unreach') is False else upd_unreach(afi, safi, n)
         plans.append(Plan(name, build, variants=variants[:1] if inner and not th else variants, **kw))
 
@@ -875,7 +887,7 @@ def nlri_plans(th=False):
                 def b_flow(F, L, comp=comp, vpn=(s == 134)):
                     rd = F.sym('rd', 8) if vpn else []
                     return F.near('len', L + 1 + len(rd)) + rd + [comp] + F.sym('n', L)
-                add('nlri:%s:component-%d' % (fam, comp), b_flow, a, s, inner=True, top=4, keep=5, weight=60, group='nlri:%s:components-%d' % (fam, comps.index(comp) // 5))
+                add('nlri:%s:component-%d' % (fam, comp), b_flow, a, s, inner=True, top=3, keep=4, weight=60, group='nlri:%s:components-%d' % (fam, comps.index(comp) // 5))
     # IPv4 unicast in the sections of the UPDATE itself
     plans.append(Plan('nlri:ipv4-unicast:withdrawn', lambda F, L: be(L, 2) + F.sym('n', L) + [0, 0], top=12))
     plans.append(Plan('nlri:ipv4-unicast:announced', lambda F, L: K.body([], BASE_ATTRS + [NEXT_HOP], [F.sym('n', L)]), top=12))
